@@ -8,6 +8,7 @@ import (
 	"os"
 	"os/exec"
 	"path/filepath"
+	"reflect"
 	"sort"
 	"strings"
 	"testing"
@@ -48,10 +49,13 @@ var tricks = map[string]string{
 	"unexported-type":        `var c PKG.stringConstant = "x"` + "\n\t_ = c",
 	"cross-conversion":       `_ = @T@(@O@)`,
 	"generic-inferred-const": `_ = conv(CONSTFN, dyn)`,
+	// file names and glob patterns are programmer-controlled text as well: ParseFS takes them as plain strings
+	"parsefs-runtime-pattern":        "var fsys @T@\n\t_, _ = template.ParseFS(fsys, dyn)",
+	"parsefs-method-runtime-pattern": "var fsys @T@\n\t_, _ = template.New(\"r\").ParseFS(fsys, \"a\"+dyn)",
 }
 
 // known to compile on the pinned tree (language-level; recorded as known findings)
-var knownCompiles = map[string]string{"cross-conversion": "K-crossconv", "generic-inferred-const": "K-generic"}
+var knownCompiles = map[string]string{"cross-conversion": "K-crossconv", "generic-inferred-const": "K-generic", "parsefs-runtime-pattern": "K-parsefspattern", "parsefs-method-runtime-pattern": "K-parsefspattern"}
 
 var otherValue = map[string]string{
 	"safehtml": `safehtml.HTMLEscaped(dyn)`,
@@ -83,6 +87,9 @@ func (c BackdoorCase) source() (string, bool) {
 			code = strings.ReplaceAll(code, "@O@", otherValue[pkg])
 		}
 	}
+	if strings.HasPrefix(c.Trick, "parsefs-") && c.Type != "template.TrustedFS" {
+		return "", false
+	}
 	if c.Trick == "generic-inferred-const" {
 		fn, ok := constFn[c.Type]
 		if !ok {
@@ -107,6 +114,9 @@ func checkBackdoor(c BackdoorCase) evid.Outcome {
 		return o
 	}
 	v := evid.Viol("a client program obtains a %s from a caller-supplied string without a sanctioned constructor (%s) and type-checks:\n%s", c.Type, c.Trick, src)
+	if strings.HasPrefix(c.Trick, "parsefs-") {
+		v = evid.Viol("a client program passes a run-time string as the file name / glob pattern of ParseFS (%s) and type-checks:\n%s", c.Trick, src)
+	}
 	v.Finding = knownCompiles[c.Trick]
 	return v
 }
@@ -394,6 +404,123 @@ func init() {
 	adapters["Template.Tree=parse(data);Clone;ExecuteToHTML"] = func(p string) (string, error) { return treeOverwrite(p, true) }
 }
 
+// knownAdapters: doors that are open on the pinned tree by API design (recorded as known findings)
+var knownAdapters = map[string]string{}
+
+// clientFlag is what any client program can write: a flag.Value around a run-time string, registered nowhere.
+type clientFlag struct{ s string }
+
+func (f *clientFlag) String() string   { return f.s }
+func (f *clientFlag) Set(string) error { return nil }
+
+func treeMutate(p string, how string) (string, error) {
+	p = strings.ReplaceAll(p, "{{", "")
+	node := &parse.TextNode{NodeType: parse.NodeText, Text: []byte(p)}
+	switch how {
+	case "append":
+		t := template.Must(template.New("t").Parse(`<b>x</b>`))
+		t.Tree.Root.Nodes = append(t.Tree.Root.Nodes, node)
+		h, err := t.ExecuteToHTML(nil)
+		return h.String(), err
+	case "root":
+		trees, err := parse.Parse("t", "<p>"+p+"</p>", "", "")
+		if err != nil {
+			return "", err
+		}
+		t := template.Must(template.New("t").Parse(`constant`))
+		t.Tree.Root = trees["t"].Root
+		h, err := t.ExecuteToHTML(nil)
+		return h.String(), err
+	case "lookup":
+		root := template.Must(template.New("root").Parse(`{{define "part"}}<i>x</i>{{end}}<p>{{template "part"}}</p>`))
+		root.Lookup("part").Tree.Root.Nodes = []parse.Node{node}
+		h, err := root.ExecuteToHTML(nil)
+		return h.String(), err
+	default: // an action added after the analysis prints its data without a sanitizer
+		t := template.Must(template.New("t").Parse(`<p>{{.}}</p>`))
+		if _, err := t.ExecuteToHTML("warm-up"); err != nil {
+			return "", err
+		}
+		trees, err := parse.Parse("x", "{{.}}", "", "")
+		if err != nil {
+			return "", err
+		}
+		t.Tree.Root.Nodes = append(t.Tree.Root.Nodes, trees["x"].Root.Nodes...)
+		h, err := t.ExecuteToHTML(p)
+		return h.String(), err
+	}
+}
+
+// viaReflect calls a constructor whose parameter is the unexported constant type with a run-time string converted
+// by package reflect (no unsafe, no generics).
+func viaReflect(fn interface{}, p string) (out reflect.Value, err error) {
+	defer func() {
+		if r := recover(); r != nil {
+			err = fmt.Errorf("panicked: %v", r)
+		}
+	}()
+	f := reflect.ValueOf(fn)
+	arg := reflect.ValueOf(p).Convert(f.Type().In(0))
+	return f.Call([]reflect.Value{arg})[0], nil
+}
+
+func init() {
+	for _, how := range []string{"append", "root", "lookup", "after-execution"} {
+		how := how
+		name := "Template.Tree mutated through the pointer (" + how + ");ExecuteToHTML"
+		adapters[name] = func(p string) (string, error) { return treeMutate(p, how) }
+		knownAdapters[name] = "K-treefield"
+	}
+	flagAdapters := map[string]func(p string) (string, error){
+		"client flag.Value;TrustedResourceURLFromFlag": func(p string) (string, error) {
+			return safehtml.TrustedResourceURLFromFlag(&clientFlag{p}).String(), nil
+		},
+		"client flag.Value;TrustedResourceURLFormatFromFlag": func(p string) (string, error) {
+			u, err := safehtml.TrustedResourceURLFormatFromFlag(&clientFlag{"https://h/" + p}, nil)
+			return u.String(), err
+		},
+		"client flag.Value;TrustedSourceFromFlag": func(p string) (string, error) {
+			return template.TrustedSourceFromFlag(&clientFlag{p}).String(), nil
+		},
+	}
+	for name, f := range flagAdapters {
+		adapters[name] = f
+		knownAdapters[name] = "K-flagvalue"
+	}
+	reflectAdapters := map[string]func(p string) (string, error){
+		"reflect.Convert to the constant type;ScriptFromConstant": func(p string) (string, error) {
+			v, err := viaReflect(safehtml.ScriptFromConstant, p)
+			if err != nil {
+				return "", err
+			}
+			return v.Interface().(safehtml.Script).String(), nil
+		},
+		"reflect.Convert to the constant type;TrustedResourceURLFromConstant": func(p string) (string, error) {
+			v, err := viaReflect(safehtml.TrustedResourceURLFromConstant, p)
+			if err != nil {
+				return "", err
+			}
+			return v.Interface().(safehtml.TrustedResourceURL).String(), nil
+		},
+		"reflect.Convert to the constant type;MakeTrustedTemplate;ParseFromTrustedTemplate;ExecuteToHTML": func(p string) (string, error) {
+			v, err := viaReflect(template.MakeTrustedTemplate, "<p>"+strings.ReplaceAll(p, "{{", "")+"</p>")
+			if err != nil {
+				return "", err
+			}
+			t, err := template.New("t").ParseFromTrustedTemplate(v.Interface().(template.TrustedTemplate))
+			if err != nil {
+				return "", err
+			}
+			h, err := t.ExecuteToHTML(nil)
+			return h.String(), err
+		},
+	}
+	for name, f := range reflectAdapters {
+		adapters[name] = f
+		knownAdapters[name] = "K-reflect"
+	}
+}
+
 var taintPayloads = []string{"<script>alert(1)</script>\"'&", "javascript:alert(1)//\"><svg onload=x>", "x\" onmouseover=\"y<", "../..//evil\\..\\\x00<", "{}</style><script>", "\n</textarea><b>"}
 
 var pathPayloads = []string{"../x", "a/b", "..", "x/../../y", "a:b", "/etc/passwd"}
@@ -431,10 +558,15 @@ func checkTaint(c TaintCase) evid.Outcome {
 	o := evid.Outcome{Key: c.Adapter + "|" + c.Payload, NonTrivial: true}
 	if err != nil {
 		o.Labels = append(o.Labels, "refused")
+		if out != "" {
+			return evid.Viol("%s refused the payload %q (%v) and still returned a non-zero safe-type value: %q", c.Adapter, c.Payload, err, out)
+		}
 		return o
 	}
 	if strings.Contains(out, c.Payload) {
-		return evid.Viol("%s returned a safe-type value containing the caller-supplied string verbatim: payload %q result %q", c.Adapter, c.Payload, out)
+		v := evid.Viol("%s returned a safe-type value containing the caller-supplied string verbatim: payload %q result %q", c.Adapter, c.Payload, out)
+		v.Finding = knownAdapters[c.Adapter]
+		return v
 	}
 	return o
 }
